@@ -189,7 +189,7 @@ def check_zero(ctx: Ctx, dtype):
 
 def main(ctx: Ctx):
     ctx.lean_gate()
-    n = 250 if ctx.tier == "quick" else 7000
+    n = 250 if ctx.tier == "quick" else 40000
     for i in range(n):
         dtype = torch.float64 if i % 3 else torch.float32
         check_imtlg(ctx, dtype)
